@@ -613,6 +613,13 @@ def check(pid, tier, seed):
         "wall_s": round(time.time() - t0, 2),
         "violations": len(inputs) + (1 if (unproved and not inputs) else 0),
     }
+    if hasattr(m, "evidence_extra"):
+        # measured, property-specific coverage fields (e.g. independently decoded records); must not override the standard keys
+        try:
+            for k, v in (m.evidence_extra(wd) or {}).items():
+                ev["coverage"].setdefault(k, v)
+        except Exception as e:    # never let evidence decoration break a verdict
+            ev["coverage"]["notes"].append("evidence_extra failed: %r" % (e,))
     with open(os.path.join(wd if ALT else EVID, pid + ".json"), "w") as f:   # evidence/ only from runs against /repo
         json.dump(ev, f, indent=1)
     log("%s %s: theorems %d/%d, cases %d (distinct non-trivial %d), mismatches %d, predicate failures %d, %.1fs -> %s"
